@@ -178,14 +178,14 @@ def r3(ctx):
     P = "barter::engine::Processor"
     b = ctx.body(ctx.find(name="process", self_adt=ENG, trait=P))
     n = 0
-    for g, term, bi in b.local_cases(0):
+    for g, term, bi in b.expanded_cases(0):
         for sub in mir.subterms(term):
             if sub[0] == "call" and (mir.short(sub[1]).startswith(("ProcessAudit::with_", "EngineAudit::process"))):
                 n += 1
                 ctx.check("Engine::process:%s@bb%d" % (mir.short(sub[1]), bi), render(sub[2][0]) == "event",
                           "the audit record is built from the very event being processed", got=render(sub)[:160], key="carries-event")
     ctx.floor("audit constructions in Engine::process", n, 6)
-    rets = b.local_cases(0)
+    rets = b.expanded_cases(0)
     bad = [render(t)[:120] for g, t, bi in rets if not any(s[0] == "call" and mir.short(s[1]).startswith(("ProcessAudit::with_", "EngineAudit::process"))
                                                             for s in mir.subterms(t))]
     ctx.check("Engine::process", not bad, "every return value derives from an audit built from the event", got=bad, key="all-returns")
@@ -336,7 +336,7 @@ def r5(ctx):
         ctx.check("StateReplicaManager::validate_and_update_context", good and len(g) == 1,
                   "the context advances only when next.sequence == replica.sequence + 1 (a gap or repeat is rejected)",
                   got=render_guard(g)[:300], key="consecutive")
-        errs = [t for gg, t, bi in v.local_cases(0) if render(t).startswith("Result::Err")]
+        errs = [t for gg, t, bi in v.expanded_cases(0) if render(t).startswith("Result::Err")]
         ctx.check("StateReplicaManager::validate_and_update_context", len(errs) == 1, "otherwise an error is returned", got=len(errs), key="rejects")
 
 
@@ -376,6 +376,59 @@ def r6(ctx):
     ctx.floor("audited modes", n, 2)
 
 
+def r7(ctx):
+    """audit record builders keep the event and lose nothing; terminality table"""
+    PA = "barter::engine::audit::ProcessAudit"
+    EA = "barter::engine::audit::EngineAudit"
+    L = common.leaf_role
+    pa = "ProcessAudit::ProcessAudit{event: %s, outputs: %s, errors: %s}"
+    for adt, fn, ret, what in (
+        (PA, "with_event", pa % ("Into::into(event)", "NoneOneOrMany::None{}", "NoneOneOrMany::None{}"), "record of the given event, no output"),
+        (PA, "with_output", pa % ("Into::into(event)", "NoneOneOrMany::One{0: Into::into(output)}", "NoneOneOrMany::None{}"), "record of the given event and output"),
+        (PA, "add_output", pa % ("self.event", "NoneOneOrMany::extend(self.outputs, NoneOneOrMany::One{0: Into::into(output)})", "self.errors"),
+         "adding an output keeps the event, the earlier outputs and the errors"),
+        (PA, "add_errors", pa % ("self.event", "self.outputs", "NoneOneOrMany::extend(self.errors, errs)"),
+         "adding errors keeps the event, the outputs and the earlier errors"),
+        (EA, "process", "EngineAudit::Process{0: ProcessAudit::with_event(event)}", "wraps the event record"),
+        (EA, "process_with_output", "EngineAudit::Process{0: ProcessAudit::with_output(event, output)}", "wraps the event+output record"),
+        (EA, "process_with_output_and_errs", "EngineAudit::Process{0: " + pa % ("Into::into(event)", "NoneOneOrMany::One{0: Into::into(output)}",
+                                                                              "NoneOneOrMany::from_iter(unrecoverable)") + "}", "event, output and all errors"),
+        (EA, "with_process_and_err", "EngineAudit::Process{0: ProcessAudit::add_errors(process, unrecoverable)}", "the record plus the errors"),
+    ):
+        L(ctx, "%s::%s" % (mir.short(adt).split("::")[-1], fn), ctx.fbody(name=fn, self_adt=adt, trait=""),
+          "audit record builder: " + what, ret=ret, effects=[], key="builder")
+    L(ctx, "EngineAudit::from(ProcessAudit)", _from_process(ctx, EA),
+      "conversion keeps the record", ret="EngineAudit::Process{0: value}", effects=[], key="builder")
+    # every with_*_update arm keeps the event
+    for fn in ("with_trading_state_update", "with_account_update", "with_market_update"):
+        b = ctx.fbody(name=fn, self_adt=PA, trait="")
+        rt = b.return_term()
+        alts = list(rt[1]) if rt[0] == "phi" else [rt]
+        bad = [render(a)[:120] for a in alts if not (
+            (a[0] == "call" and mir.short(a[1]) in ("ProcessAudit::with_event", "ProcessAudit::with_output") and render(a[2][0]) == "event") or
+            (a[0] == "agg" and render(a).startswith("ProcessAudit::ProcessAudit{event: Into::into(event), ")))]
+        ctx.check("ProcessAudit::" + fn, len(alts) >= 2 and not bad, "every arm builds the record from the event being processed", got=bad, key="keeps-event")
+    t = ctx.fbody(name="is_terminal", self_adt=PA, trait="barter_integration::Terminal")
+    tab = sorted((render_guard(g), render(v)) for g, v, bi in t.expanded_cases(0))
+    ctx.check("ProcessAudit::is_terminal", tab == [("(!Terminal::is_terminal(self.event))", "Not(NoneOneOrMany::is_empty(self.errors))"),
+                                                    ("(Terminal::is_terminal(self.event))", "1")],
+              "a record is terminal exactly when its event is terminal or it carries unrecoverable errors", got=tab, key="table")
+    t = ctx.fbody(name="is_terminal", self_adt=EA, trait="barter_integration::Terminal")
+    tab = sorted((render_guard(g), render(v)) for g, v, bi in t.expanded_cases(0))
+    ctx.check("EngineAudit::is_terminal", tab == [("(self is FeedEnded)", "1"), ("(self is Process)", "ProcessAudit::is_terminal(self.as:Process.0)")],
+              "FeedEnded is terminal; a Process record defers to the record", got=tab, key="table")
+    L(ctx, "StateReplicaManager::replica_engine_state_mut", ctx.fbody(name="replica_engine_state_mut", self_adt=SRM, trait=""),
+      "the replica's state is the one inside the replica's own tick", ret="self.state_replica.event", effects=[], key="view")
+    L(ctx, "Sequence::value", ctx.fbody(name="value", self_adt="barter::Sequence", trait=""), "the counter's value", ret="self.0", effects=[], key="view")
+
+
+def _from_process(ctx, EA):
+    ds = [d for d in ctx.facts.bodies if d.startswith("<" + EA) and d.endswith("::from") and "ProcessAudit" in d]
+    if len(ds) != 1:
+        raise Exception("From<ProcessAudit> for EngineAudit not found: %r" % ds)
+    return ctx.body(ds[0])
+
+
 RULES = [
     ("R1", "runners: each tick is sent exactly once before the next event / return; terminal or feed-ended tick last; siblings agree", r1),
     ("R2", "sequence: post-increment by one, single caller, snapshot via audit, who-may-write the counters", r2),
@@ -383,4 +436,5 @@ RULES = [
     ("R4", "replica mirrors the engine: same state-mutating callees per event kind", r4),
     ("R5", "replica admission: skip old, reject gaps, validation dominates every update", r5),
     ("R6", "the snapshot is taken from the engine before it is moved into the audited runner", r6),
+    ("R7", "audit record builders keep the event / outputs / errors; terminality tables; replica state view", r7),
 ]
